@@ -5,6 +5,7 @@
   The first two facts are Mathlib's `bernstein.probability` and `bernstein.variance`.
 -/
 import Mathlib.Analysis.SpecialFunctions.Bernstein
+import Mathlib.Analysis.SpecialFunctions.Sqrt
 
 namespace StatsCI.Binomial
 open Finset
@@ -134,5 +135,151 @@ theorem score_region_mass_inner (n : ℕ) (hn : n ≠ 0) {p z : ℝ} (h0 : 0 ≤
     have hw := pmf_nonneg n k h0 h1
     split_ifs <;> linarith
   linarith
+
+/-- Σ k · pmf = n p -/
+theorem pmf_mean_raw (n : ℕ) (p : ℝ) :
+    ∑ k ∈ range (n + 1), (k : ℝ) * pmf n k p = n * p := by
+  have h := congrArg (Polynomial.eval p) (bernsteinPolynomial.sum_smul ℝ n)
+  simp only [Polynomial.eval_finsetSum, nsmul_eq_mul, Polynomial.eval_X,
+    bernsteinPolynomial, Polynomial.eval_mul, Polynomial.eval_pow, Polynomial.eval_sub,
+    Polynomial.eval_one, Polynomial.eval_natCast] at h
+  simpa [pmf] using h
+
+/-- the mean of `k/n − p` is zero -/
+theorem pmf_mean_dev (n : ℕ) (hn : n ≠ 0) {p : ℝ} (h0 : 0 ≤ p) (h1 : p ≤ 1) :
+    ∑ k ∈ range (n + 1), ((k : ℝ) / n - p) * pmf n k p = 0 := by
+  have hn' : (n : ℝ) ≠ 0 := by exact_mod_cast hn
+  have e : ∀ k ∈ range (n + 1), ((k : ℝ) / n - p) * pmf n k p
+      = (1 / n) * ((k : ℝ) * pmf n k p) - p * pmf n k p := by
+    intro k _; field_simp
+  rw [Finset.sum_congr rfl e, Finset.sum_sub_distrib, ← Finset.mul_sum, ← Finset.mul_sum,
+    pmf_mean_raw, pmf_sum n h0 h1]
+  field_simp
+  ring
+
+/-- **Cantelli for the binomial distribution** (one-sided Chebyshev): the outcomes with
+    `k/n − p > t`, `t > 0`, carry probability at most `v/(v + t²)`, `v = p(1−p)/n` -/
+theorem tail_mass (n : ℕ) (hn : n ≠ 0) {p t s : ℝ} (hs : s ^ 2 = 1) (h0 : 0 ≤ p) (h1 : p ≤ 1)
+    (ht : 0 < t) :
+    ∑ k ∈ range (n + 1), pmf n k p * (if t < s * ((k : ℝ) / n - p) then 1 else 0)
+      ≤ (p * (1 - p) / n) / (p * (1 - p) / n + t ^ 2) := by
+  set v : ℝ := p * (1 - p) / n with hv
+  have hn' : (0 : ℝ) < n := by exact_mod_cast Nat.pos_of_ne_zero hn
+  have hv0 : 0 ≤ v := by
+    have : 0 ≤ 1 - p := by linarith
+    positivity
+  set u : ℝ := v / t with hu
+  have hu0 : 0 ≤ u := div_nonneg hv0 ht.le
+  have hsum := pmf_sum n h0 h1
+  have hmean : ∑ k ∈ range (n + 1), (s * ((k : ℝ) / n - p)) * pmf n k p = 0 := by
+    have : ∀ k ∈ range (n + 1), (s * ((k : ℝ) / n - p)) * pmf n k p
+        = s * (((k : ℝ) / n - p) * pmf n k p) := by intro k _; ring
+    rw [Finset.sum_congr rfl this, ← Finset.mul_sum, pmf_mean_dev n hn h0 h1, mul_zero]
+  have hvar : ∑ k ∈ range (n + 1), (s * ((k : ℝ) / n - p)) ^ 2 * pmf n k p = v := by
+    rw [hv, ← pmf_variance n hn h0 h1]
+    apply Finset.sum_congr rfl; intro k _
+    rw [mul_pow, hs]; ring
+  set P := ∑ k ∈ range (n + 1), pmf n k p * (if t < s * ((k : ℝ) / n - p) then 1 else 0) with hP
+  -- (t + u)² P ≤ E (d + u)² = v + u²
+  have key : (t + u) ^ 2 * P ≤ v + u ^ 2 := by
+    have e : v + u ^ 2 = ∑ k ∈ range (n + 1), (s * ((k : ℝ) / n - p) + u) ^ 2 * pmf n k p := by
+      have : ∀ k ∈ range (n + 1), (s * ((k : ℝ) / n - p) + u) ^ 2 * pmf n k p
+          = (s * ((k : ℝ) / n - p)) ^ 2 * pmf n k p + 2 * u * ((s * ((k : ℝ) / n - p)) * pmf n k p)
+            + u ^ 2 * pmf n k p := by intro k _; ring
+      rw [Finset.sum_congr rfl this, Finset.sum_add_distrib, Finset.sum_add_distrib,
+        ← Finset.mul_sum, ← Finset.mul_sum, hvar, hmean, hsum]
+      ring
+    rw [e, hP, Finset.mul_sum]
+    apply Finset.sum_le_sum
+    intro k _
+    have hw := pmf_nonneg n k h0 h1
+    by_cases hc : t < s * ((k : ℝ) / n - p)
+    · rw [if_pos hc]
+      have h1' : t + u ≤ s * ((k : ℝ) / n - p) + u := by linarith
+      have h2' : 0 ≤ t + u := by linarith
+      have := mul_le_mul_of_nonneg_right (pow_le_pow_left₀ h2' h1' 2) hw
+      linarith
+    · rw [if_neg hc]
+      have : 0 ≤ (s * ((k : ℝ) / n - p) + u) ^ 2 * pmf n k p := by positivity
+      linarith
+  -- algebra: (v + u²)/(t + u)² = v/(v + t²) with u = v/t
+  have htu : 0 < t + u := by linarith
+  have hden : 0 < v + t ^ 2 := by positivity
+  rw [le_div_iff₀ hden]
+  -- (t+u)² v = (v + u²)(v + t²) when u t = v
+  have hut : u * t = v := by rw [hu]; field_simp
+  have e3 : (v + u ^ 2) * (v + t ^ 2) = (t + u) ^ 2 * v := by
+    have : v + u ^ 2 = u * (t + u) := by rw [← hut]; ring
+    have h2 : v + t ^ 2 = t * (t + u) := by rw [← hut]; ring
+    rw [this, h2, ← hut]; ring
+  have hpos : 0 < (t + u) ^ 2 := by positivity
+  have : (t + u) ^ 2 * (P * (v + t ^ 2)) ≤ (t + u) ^ 2 * v := by
+    calc (t + u) ^ 2 * (P * (v + t ^ 2)) = ((t + u) ^ 2 * P) * (v + t ^ 2) := by ring
+      _ ≤ (v + u ^ 2) * (v + t ^ 2) := mul_le_mul_of_nonneg_right key hden.le
+      _ = (t + u) ^ 2 * v := e3
+  exact le_of_mul_le_mul_left this hpos
+
+
+/-- the one-sided score region `s·(k/n − p) ≤ z √(p(1−p)/n)` (`s = ±1`, `z > 0`) carries probability at
+    least `1 − 1/(1 + z²) = z²/(1 + z²)` -/
+theorem one_sided_region_mass (n : ℕ) (hn : n ≠ 0) {p z s : ℝ} (hs : s ^ 2 = 1) (h0 : 0 ≤ p)
+    (h1 : p ≤ 1) (hz : 0 < z) :
+    1 - 1 / (1 + z ^ 2) ≤ ∑ k ∈ range (n + 1),
+      pmf n k p * (if s * ((k : ℝ) / n - p) ≤ z * Real.sqrt (p * (1 - p) / n) then 1 else 0) := by
+  set v : ℝ := p * (1 - p) / n with hv
+  have hn' : (0 : ℝ) < n := by exact_mod_cast Nat.pos_of_ne_zero hn
+  have hv0 : 0 ≤ v := by
+    have : 0 ≤ 1 - p := by linarith
+    positivity
+  have hsum := pmf_sum n h0 h1
+  -- coverage = 1 − mass of the tail
+  have hcov : ∑ k ∈ range (n + 1),
+      pmf n k p * (if s * ((k : ℝ) / n - p) ≤ z * Real.sqrt v then 1 else 0)
+      = 1 - ∑ k ∈ range (n + 1),
+      pmf n k p * (if z * Real.sqrt v < s * ((k : ℝ) / n - p) then 1 else 0) := by
+    have hadd : (∑ k ∈ range (n + 1),
+        pmf n k p * (if s * ((k : ℝ) / n - p) ≤ z * Real.sqrt v then 1 else 0))
+        + ∑ k ∈ range (n + 1),
+        pmf n k p * (if z * Real.sqrt v < s * ((k : ℝ) / n - p) then 1 else 0)
+        = ∑ k ∈ range (n + 1), pmf n k p := by
+      rw [← Finset.sum_add_distrib]
+      apply Finset.sum_congr rfl
+      intro k _
+      by_cases hc : s * ((k : ℝ) / n - p) ≤ z * Real.sqrt v
+      · rw [if_pos hc, if_neg (not_lt.mpr hc)]; ring
+      · rw [if_neg hc, if_pos (not_le.mp hc)]; ring
+    rw [hsum] at hadd
+    linarith
+  rw [hcov]
+  rcases hv0.lt_or_eq with hvpos | hv0'
+  · have ht : 0 < z * Real.sqrt v := mul_pos hz (Real.sqrt_pos.mpr hvpos)
+    have h := tail_mass n hn hs h0 h1 ht
+    rw [← hv] at h
+    have e : v / (v + (z * Real.sqrt v) ^ 2) = 1 / (1 + z ^ 2) := by
+      rw [mul_pow, Real.sq_sqrt hv0]
+      field_simp
+    rw [e] at h
+    linarith
+  · -- zero variance: the tail is empty
+    have hvar := pmf_variance n hn h0 h1
+    rw [← hv, ← hv0'] at hvar
+    have hnn : ∀ k ∈ range (n + 1), 0 ≤ (p - k / n) ^ 2 * pmf n k p := by
+      intro k _
+      have := pmf_nonneg n k h0 h1
+      positivity
+    have hterm := (Finset.sum_eq_zero_iff_of_nonneg hnn).mp hvar
+    have htail : ∑ k ∈ range (n + 1),
+        pmf n k p * (if z * Real.sqrt v < s * ((k : ℝ) / n - p) then 1 else 0) = 0 := by
+      apply Finset.sum_eq_zero
+      intro k hk
+      rcases mul_eq_zero.mp (hterm k hk) with h | h
+      · have hd : (k : ℝ) / n - p = 0 := by
+          have := pow_eq_zero_iff (two_ne_zero) |>.mp h
+          linarith
+        rw [hd, mul_zero, ← hv0', Real.sqrt_zero, mul_zero, if_neg (lt_irrefl _)]; ring
+      · rw [h]; ring
+    rw [htail]
+    have : 0 ≤ 1 / (1 + z ^ 2) := by positivity
+    linarith
 
 end StatsCI.Binomial
